@@ -460,6 +460,12 @@ func runHistory(cfg worldCfg, hist []absStep, seed int64) (res execResult) {
 				}
 			case c.Name == "session":
 				it.name = sessName
+			case c.Name == "own-sub": // the tracking prefix followed by the token's own signed subject
+				t, mapped := parseTok(it.value, w.key.term, true)
+				if !mapped || t == nil {
+					continue
+				}
+				it.name = prefix + t.Sub
 			case strings.HasPrefix(c.Name, "flow:"):
 				var id int
 				fmt.Sscanf(c.Name, "flow:%d", &id)
@@ -954,7 +960,7 @@ func (g *histGen) randJar(own int) []absCookie {
 		jar = append(jar, absCookie{Src: "garbage", Step: 0, Name: "=other"})
 	case 15: // session token under a tracking-style name only
 		if len(g.delivs) > 0 {
-			jar = append(jar, absCookie{Src: "session", Step: g.delivs[r.Intn(len(g.delivs))], Name: "=saml_"})
+			jar = append(jar, absCookie{Src: "session", Step: g.delivs[r.Intn(len(g.delivs))], Name: []string{"=saml_", "own-sub"}[r.Intn(2)]})
 		}
 		full()
 	}
@@ -1101,7 +1107,10 @@ func directedHistories(cfg worldCfg) map[string][]absStep {
 	h["session-token-as-tracking-cookie"] = mk(start("/protected/a?x=1"), answer(0, "alice"), deliver(1, "faithful", tr(0)), start("/protected/b"), answer(-1, "mallory"),
 		deliver(4, "empty", absCookie{Src: "session", Step: 2, Name: "=saml_"}),
 		deliver(4, "empty", absCookie{Src: "session", Step: 2, Name: "flow:3"}),
-		deliver(4, "flow:3", absCookie{Src: "session", Step: 2, Name: "flow:3"}))
+		deliver(4, "flow:3", absCookie{Src: "session", Step: 2, Name: "flow:3"}),
+		deliver(4, "empty", absCookie{Src: "session", Step: 2, Name: "own-sub"}),
+		deliver(4, "=alice", absCookie{Src: "session", Step: 2, Name: "own-sub"}),
+		deliver(4, "empty", absCookie{Src: "session", Step: 2, Name: "own-sub"}, tr(3)))
 	for _, m := range []string{"bitflip", "truncate", "resign", "payload"} {
 		h["damaged-cookie-"+m] = mk(start("/protected/a?x=1"), answer(0, "alice"), deliver(1, "faithful", absCookie{Src: "tracking", Step: 0, Name: "own", Mut: m}),
 			deliver(1, "faithful", absCookie{Src: "tracking", Step: 0, Name: "own", Mut: m}, tr(0)))
